@@ -479,9 +479,11 @@ class StmtMixin(object):
         pass   # rebinding a closure: keep
     mods = ls.get('modifies', cx.spec.modifies if cx.spec is not None else ())
     self.havoc_patterns(st, mods)
-    a = z3.Int(fresh_name('alloc'))
-    st.assume(a >= st.alloc)
-    st.alloc = a
+    if ls.get('allocates', cx.spec.allocates if cx.spec is not None else True):
+      a = z3.Int(fresh_name('alloc'))
+      st.assume(a >= st.alloc)
+      st.alloc = a
+    head_alloc = st.alloc
     head_heap = dict(st.heap)
     modkeys = self.keys_of_patterns(mods)
     for e in ls.get('invariant', ()):
@@ -532,6 +534,8 @@ class StmtMixin(object):
               d1 = num_term(self.spec_value(s2, cx, ls['decreases']), False)
               self.oblige(s2, 'decreases[%s]' % tag, z3.And(d1 >= 0, d1 < dec0), node, 'loop variant decreases')
             self.check_frame(s2, head_heap, modkeys, 'loop-frame[%s]' % tag, node)
+            if s2.alloc is not head_alloc and not ls.get('allocates', cx.spec.allocates if cx.spec is not None else True):
+              self.oblige(s2, 'loop-no-alloc[%s]' % tag, s2.alloc == head_alloc, node, 'the loop body allocates nothing')
           elif kind == 'brk':
             self.check_frame(s2, head_heap, modkeys, 'loop-frame[%s]' % tag, node)
             s2.path.append('loop%d:break' % ordn)
